@@ -191,9 +191,10 @@ def prepare_lean(prop_modules: list[str], bridge: bool = True, recheck: bool = F
             rc, out = sh(["lake", "env", "lean", str(audit)], cwd=LEAN, timeout=1800)
             audit.unlink(missing_ok=True)
             axioms: dict[str, list[str]] = {}
-            for m in re.finditer(r"'([^']+)' depends on axioms: \[([^\]]*)\]", out.replace("\n", " ")):
+            # names may end in primes (`foo'`): the name runs up to the quote that is followed by the verdict
+            for m in re.finditer(r"'(\S+?)' depends on axioms: \[([^\]]*)\]", out.replace("\n", " ")):
                 axioms[m.group(1)] = [a.strip() for a in m.group(2).split(",") if a.strip()]
-            for m in re.finditer(r"'([^']+)' does not depend on any axioms", out):
+            for m in re.finditer(r"'(\S+?)' does not depend on any axioms", out):
                 axioms[m.group(1)] = []
             for o in st.obligations:
                 if o["status"] == "discharged":
